@@ -426,6 +426,37 @@ async fn an_archived_element_leaves_ordinary_recall_but_still_exists() {
 }
 
 #[tokio::test]
+async fn an_empty_text_constraint_means_the_same_on_every_path() {
+    // Storage spells "no key" as the empty string and the view omits the
+    // member. `{key: ""}` asks for the elements without one, whether the
+    // index, an id lookup or a past coordinate answers it.
+    let nexus = seeded("empty_text").await;
+    ok(
+        &nexus,
+        r#"CREATE CONCEPT ?carol { TYPE "Person" NAME "Carol" SET FIELDS {key: "carol"} }"#,
+    )
+    .await;
+    let alice: String = {
+        let found = ok(&nexus, r#"FIND(?c) WHERE { ?c CONCEPT {name: "Alice"} }"#).await;
+        rows(&found)[0]["id"].as_str().unwrap().to_string()
+    };
+
+    let unkeyed = r#"FIND(?c.name) WHERE { ?c CONCEPT {type: "Person", key: ""} } ORDER BY ?c.name"#;
+    let expected = vec![json!("Alice"), json!("Bob")];
+    assert_eq!(rows(&ok(&nexus, unkeyed).await), &expected);
+    assert_eq!(
+        rows(&ok(&nexus, &unkeyed.replace("ORDER BY", "AS OF SEQ 2 ORDER BY")).await),
+        &expected
+    );
+    let by_id = ok(
+        &nexus,
+        &format!(r#"FIND(?c.name) WHERE {{ ?c CONCEPT {{id: "{alice}", key: ""}} }}"#),
+    )
+    .await;
+    assert_eq!(rows(&by_id), &vec![json!("Alice")]);
+}
+
+#[tokio::test]
 async fn for_time_restricts_by_world_validity() {
     // Spec §36.1: `FOR TIME` asks what was applicable then, an axis
     // independent of what the Brain contained then.
